@@ -182,12 +182,13 @@ def unit_nearmiss(a):
 
 # ------------------------------------------------------------------ foreign keywords
 def all_keywords():
+    """[(keyword, is title keyword, a dialect that lists it)]"""
     out = collections.OrderedDict()
     for d in sorted(DIALECTS):
         for cat in TITLE_CATS + STEP_CATS:
             for kw in DIALECTS[d][cat]:
-                out.setdefault((kw, cat in TITLE_CATS), None)
-    return list(out)
+                out.setdefault((kw, cat in TITLE_CATS), d)
+    return [(k, t, o) for (k, t), o in out.items()]
 
 
 def check_foreign(case, stats):
@@ -210,6 +211,15 @@ def check_foreign(case, stats):
     sc = r[1]["feature"]["children"][0]["scenario"]
     if sc["steps"] or sc["description"] != "    " + line or len(r[1]["feature"]["children"]) != 1:
         raise Violation(case, "foreign keyword line %r in %s: steps %r description %r" % (line, d, sc["steps"], sc["description"]))
+    # the same with a matcher whose configured default is a dialect that does list the keyword; the document selects `d` by header
+    owner = case.get("owner")
+    if owner and owner != d:
+        r = gh.parse("# language: %s\n" % d + text, owner)
+        ok = r[0] == "ok" and len(r[1]["feature"]["children"]) == 1 and not r[1]["feature"]["children"][0]["scenario"]["steps"] and \
+            r[1]["feature"]["children"][0]["scenario"]["description"] == "    " + line
+        if not ok:
+            raise Violation(case, "line %r is a keyword line in %s (the matcher's default) but not in %s (selected by the header): it must be description text, got %r" % (
+                line, owner, d, r[1] if r[0] != "ok" else r[1]["feature"]["children"]))
 
 
 def unit_foreign(a):
@@ -222,13 +232,13 @@ def unit_foreign(a):
             if i % a["nshards"] != a["shard"]:
                 continue
             own = {(k, c in TITLE_CATS) for c in TITLE_CATS + STEP_CATS for k in DIALECTS[d][c]}
-            for kw, title in kws:
+            for kw, title, owner in kws:
                 if (kw, title) in own:
                     continue
                 n += 1
                 if a["sample"] and n % a["sample"] != a["seed"] % a["sample"]:
                     continue
-                yield {"sub": "foreign", "dialect": d, "kw": kw, "title": title}
+                yield {"sub": "foreign", "dialect": d, "kw": kw, "title": title, "owner": owner if n % 4 == 0 else None}
     sweep(stats, gen(), check_foreign)
     return stats
 
